@@ -88,6 +88,7 @@ PROP = [  # (subject fragment, property, also)
  ("ON DUPLICATE KEY UPDATE enforces referential integrity like UPDATE", "C12", ""),
  ("re-checks a row's foreign keys when it is inserted", "C12", ""),
  ("deliver an ORDER BY that mixes ascending and descending columns", "C02", ""),
+ ("select-list alias for another expression is not delivered from an index", "C02", ""),
  ("DROP COLUMN is refused when the rest of a multi-column UNIQUE constraint", "C33", "C10"),
  ("index-backed IN (subquery) shortcut checks the SELECT privilege", "C26", ""),
 ]
